@@ -69,22 +69,37 @@ func discharge(o *Obligation, dir string, timeoutS int, cross bool) {
 		want = "sat"
 	}
 	decided := func(r string) bool { return r == "sat" || r == "unsat" }
-	// stage 1: z3 5.1 with a short limit
+	// stage 1: z3 5.1 with a short limit, on both assertion orders
 	quick := 4
 	if quick > timeoutS {
 		quick = timeoutS
 	}
-	first := runSolver(solvers[0], file, quick)
+	o.goalFirst = true
+	file2 := strings.TrimSuffix(file, ".smt2") + ".b.smt2"
+	os.WriteFile(file2, []byte(o.script(true)), 0o644)
+	o.goalFirst = false
+	ch1 := make(chan solveOut, 2)
+	go func() { ch1 <- runSolver(solvers[0], file, quick) }()
+	go func() { ch1 <- runSolver(solvers[0], file2, quick) }()
+	first := <-ch1
 	total := first.secs
+	if !decided(first.result) {
+		second := <-ch1
+		total += second.secs
+		if decided(second.result) {
+			first = second
+		}
+	}
 	best := first
 	if !decided(first.result) {
 		// stage 2: race all three with the full limit
-		ch := make(chan solveOut, len(solvers))
+		ch := make(chan solveOut, 2*len(solvers))
 		for _, s := range solvers {
 			go func(s solverSpec) { ch <- runSolver(s, file, timeoutS) }(s)
+			go func(s solverSpec) { ch <- runSolver(s, file2, timeoutS) }(s)
 		}
 		var outs []solveOut
-		for range solvers {
+		for i := 0; i < 2*len(solvers); i++ {
 			r := <-ch
 			outs = append(outs, r)
 			total += r.secs
